@@ -506,6 +506,15 @@ def gen_texttable(quick: bool) -> List[Method]:
                         cm = {"cat": "TEXTTABLE", "i2p": rows}
                         cm.update(dv)
                         out.append((it, pt, cm))
+    # rows that share a limit value (CLOSED/CLOSED: the value belongs to both rows), in both orders
+    A, Bm, C = ({"lo": L(2, "CLOSED"), "hi": L(5, "CLOSED"), "const": "a", "inv": 3}, {"lo": L(5, "CLOSED"), "hi": L(9, "CLOSED"), "const": "b", "inv": 7},
+                {"lo": L(9, "CLOSED"), "hi": L(12, "CLOSED"), "const": "c", "inv": 10})
+    for it in ("u8", "i8", "f32"):
+        for rows in ((A, Bm), (Bm, A), (A, Bm, C), (C, Bm, A), (A, C), (Bm, C)):
+            for dv in ({}, {"default_phys": "dflt"}, {"default_int": 0}):
+                cm = {"cat": "TEXTTABLE", "i2p": [dict(r) for r in rows]}
+                cm.update(dv)
+                out.append((it, "A_UNICODE2STRING", cm))
     # 64-bit internal types: adjacent rows that meet at 2^53 / 2^63 / 2^64-1 (exact integer comparison decides the row)
     for it, lo0 in (("u64", 0), ("i64", -B63)):
         top = B64 - 1 if it == "u64" else B63 - 1
@@ -897,6 +906,38 @@ def history_queries(it: str, pt: str, cm: Dict[str, Any], pristine: Any, small: 
     return groups, allq
 
 
+def boundary_groups(it: str, cm: Dict[str, Any]) -> List[List[Any]]:
+    """For piecewise methods: per limit value shared by two consecutive scales that BOTH include it (CLOSED/CLOSED, where
+    "the first applicable scale" decides): [boundary, boundary-1, boundary+1, an interior point of either scale]."""
+    if cm["cat"] not in ("SCALE-LINEAR", "SCALE-RAT-FUNC", "TEXTTABLE"):
+        return []
+    is_float = base_type(it) in R.FLOAT_TYPES
+
+    def lim(l: Any) -> Tuple[Any, str]:
+        if isinstance(l, dict):
+            return l.get("v"), (l.get("type") or "CLOSED")
+        return l, "CLOSED"
+
+    def interior(s: Dict[str, Any]) -> Any:
+        (a, _), (b, _) = lim(s.get("lo")), lim(s.get("hi"))
+        if a is None or b is None:
+            return None
+        return (a + b) / 2 if is_float else (a + b) // 2
+
+    out: List[List[Any]] = []
+    scales = cm.get("i2p") or []
+    for s0, s1 in zip(scales, scales[1:]):
+        if s0.get("hi") is None or s1.get("lo") is None:
+            continue
+        (b0, t0), (b1, t1) = lim(s0["hi"]), lim(s1["lo"])
+        if b0 is None or b0 != b1 or t0 != "CLOSED" or t1 != "CLOSED":
+            continue
+        vals = [b0, b0 - 1, b0 + 1, interior(s0), interior(s1)]
+        vals = [float(v) if is_float else v for v in vals if v is not None]
+        out.append(list(dict.fromkeys(vals)))
+    return out
+
+
 def history_pair(pristine: Any, q1: Tuple[str, Any], q2: Tuple[str, Any]) -> Tuple[Any, Any]:
     """-> (answer to q2 on a fresh object, answer to q2 on an object that answered q1 before)"""
     clone = cloner(pristine)
@@ -919,6 +960,21 @@ def history_method(part: Part, it: str, pt: str, cm: Dict[str, Any], pristine: A
     for q in allq:
         base[(q[0], vkey(q[1]))] = outcome(clone(), q[0], q[1])
     pairs = [(a, b) for a in allq for b in allq] if all_pairs else [(a, b) for g in groups for a in g for b in g]
+    # piecewise methods: all ordered pairs of conversions around every boundary shared by two CLOSED scales, both directions
+    for vals in boundary_groups(it, cm):
+        qi = [("i2p", v) for v in vals]
+        images: List[Any] = []
+        for q in qi:
+            ans = base.setdefault((q[0], vkey(q[1])), outcome(clone(), q[0], q[1]))
+            if ans[0] == "ok" and ans[2] not in images:
+                images.append(ans[2])
+        qp = [("p2i", v) for v in images]
+        for q in qp:
+            base.setdefault((q[0], vkey(q[1])), outcome(clone(), q[0], q[1]))
+        bp = [(a, b) for a in qi for b in qi] + [(a, b) for a in qp for b in qp]
+        part.count("history_boundary_groups")
+        part.count("history_boundary_sequences", len(bp))
+        pairs += bp
     for q1, q2 in pairs:
         o = clone()
         outcome(o, q1[0], q1[1])
@@ -996,6 +1052,10 @@ def run(ctx: Ctx) -> None:
                             + "; texts: a table text and an unknown one) on EVERY configuration; all ordered "
                             f"pairs over all these queries on every {HISTORY_ALL_PAIRS_EVERY[1 if quick else 0]}th configuration of a category; "
                             "each sequence on a fresh copy (pickle round trip) of the never-queried loaded object, second answer compared with a fresh object's"),
+        "boundary_sequences": ("SCALE-LINEAR, SCALE-RAT-FUNC, TEXTTABLE: for every limit value shared by two consecutive CLOSED/CLOSED scales, all "
+                               "ordered pairs convert(x) then convert(y) over {boundary, boundary-1, boundary+1, interior point of either scale} on "
+                               "one fresh object, and all ordered pairs of physical->internal conversions over the images of these values; "
+                               "every second answer compared with a fresh object's"),
         "tab_intp": "2..4 points, all y sequences over a 4-value menu (increasing, decreasing, non-monotone, plateaus)",
         "rat_func": ("5 numerators x 4 denominators x 4 limit shapes" if quick else "7 numerators (degree <= 2) x 5 denominators (absent, degree 0, degree 1) x 6 limit shapes")
                     + " x {no inverse, exact inverse, restricted / unrelated inverse}; SCALE-RAT-FUNC: 1..3 scales from 5 segment templates",
@@ -1025,6 +1085,7 @@ def run(ctx: Ctx) -> None:
     ctx.guard("exact ties were met (and excused)", c.get("ties_i2p", 0) > 0)
     ctx.guard("injective and monotone continuous methods present", c.get("injective_methods", 0) > 10 and c.get("monotone_continuous_methods", 0) > 10)
     ctx.guard("more than 1000 methods", c.get("methods", 0) > 1000)
+    ctx.guard("boundary sequences were run on CLOSED/CLOSED piecewise methods", c.get("history_boundary_groups", 0) > 100)
     ctx.guard("query sequences were run (twin pairs on all methods, all pairs on a sample)",
               c.get("history_sequences", 0) > 10000 and c.get("history_methods_all_pairs", 0) > 50 and c.get("history_uncopyable_methods", 0) == 0)
     ctx.sets.pop("categories", None)
